@@ -14,8 +14,11 @@
   `Cog.Passes.runChain` over the per-pass models), every document of the source-side language
   `srcDen` of the pre-chain IR (a non-required field may be absent whatever its type) belongs to
   `den` of the post-chain IR, for the same type and fuel (`C01_pass_widening_plain_partial`), hence
-  decodes and re-encodes JSON-equal (`C01_source_roundtrip_plain_partial`).  The tie of `Plain`,
-  `srcDen` and of the pass models to the code is the `c01-src` stream (harness/c01_src.go).
+  decodes and re-encodes JSON-equal (`C01_source_roundtrip_plain_partial`).  First extension
+  (`PlainN`): two-branch `T | null` disjunctions in field / element / map-value position, which
+  DisjunctionWithNullToOptional turns into the nullable `T` (`C01_pass_widening_nullable_partial`,
+  one more unit of fuel).  The tie of `Plain`, `PlainN`, `srcDen` and of the pass models to the code
+  is the `c01-src` stream (harness/c01_src.go).
 
   What is NOT proved and stays under the correspondence check only (stated in the evidence):
   (b) parser soundness `valid D root d → srcDen (parse_f D) root d`; (c) outside the plain fragment;
@@ -28,6 +31,7 @@
 import Cog.Sem.RoundTrip
 import Cog.Sem.DenMono
 import Cog.Sem.WidenChain
+import Cog.Sem.WidenChainN
 import Cog.Gen.Chains
 namespace Cog.Sem
 open Cog.IR GoVal
@@ -196,6 +200,48 @@ example : Plain exSrc = true ∧
      | .ok S' => den 8 S' (.ref "p" "Root" {}) exSrcDoc && roundTripsOK S' "p" "Root" exSrcDoc
      | _ => false) = true := by
   refine ⟨by decide +kernel, by decide +kernel, by decide +kernel, by decide +kernel, by decide +kernel⟩
+
+/-! ### first extension: `T | null` pairs (JSON Schema `type: [T, "null"]`, CUE `null | T`) -/
+
+/-- Pass widening on the fragment with `T | null` pairs, through the real regenerated Go chain: the
+    image of a type is `nullOpt t` (the pair replaced by the nullable `T`; `t` itself for a type
+    without pairs, in particular a reference to a named object); one more unit of fuel. -/
+theorem C01_pass_widening_nullable_partial (S S' : Schemas) (hP : PlainN S = true)
+    (hrun : runChain goChain S = .ok S') (n : Nat) (t : Ty) (ht : nrTy t = true) (j : Json)
+    (h : srcDen n S t j = true) : den (n + 1) S' (nullOpt t) j = true :=
+  (widen_chainN goChain (by decide) S S' hP hrun).2 n t j ht h
+
+/-- (c) + (d) for named objects of a pre-chain IR with `T | null` pairs -/
+theorem C01_source_roundtrip_nullable_partial (S S' : Schemas) (hP : PlainN S = true)
+    (hrun : runChain goChain S = .ok S') (n : Nat) (pkg name : String) (j : Json)
+    (h : srcDen n S (.ref pkg name {}) j = true) :
+    ∃ j', goRoundTrip (n + 1) S' pkg name j = .ok j' ∧ Json.eqv j' j = true :=
+  C01_object_roundtrip_partial S' (n + 1) pkg name j
+    (C01_pass_widening_nullable_partial S S' hP hrun n _ rfl j h)
+
+def tNull : Ty := .scalar "null" .nil [] m0
+
+def srcRootTyN : Ty :=
+  .struct [
+    { name := "name", ty := .disj [tStr, tNull] {} m0, required := true },
+    { name := "count", ty := .disj [tNull, .scalar "int64" .nil [] m0] {} m0, required := false },
+    { name := "tags", ty := .array (.disj [tStr, tNull] {} m0) m0, required := false },
+    { name := "child", ty := .disj [.ref "p" "Root" m0, tNull] {} m0, required := false }] [] none m0
+
+def exSrcN : Schemas :=
+  [{ pkg := "p", objects := [("Root", { name := "Root", selfPkg := "p", selfName := "Root", ty := srcRootTyN })] }]
+
+def exSrcDocN : Json :=
+  .obj [("name", .null), ("tags", .arr [.str "a", .null]), ("child", .obj [("name", .str "y"), ("count", .null)])]
+
+/-- non-vacuity: the example is in `PlainN` but not in `Plain`; the hypotheses hold and so does the
+    conclusion evaluated on the model chain -/
+example : PlainN exSrcN = true ∧ Plain exSrcN = false ∧
+    srcDen 8 exSrcN (.ref "p" "Root" {}) exSrcDocN = true ∧
+    (match runChain goChain exSrcN with
+     | .ok S' => den 9 S' (.ref "p" "Root" {}) exSrcDocN && roundTripsOK S' "p" "Root" exSrcDocN
+     | _ => false) = true := by
+  refine ⟨by decide +kernel, by decide +kernel, by decide +kernel, by decide +kernel⟩
 
 /-- a member outside the enum is rejected at the source (and accepted by `den`, which only reads the kind) -/
 example : srcDen 8 exSrc (.ref "p" "Root" {}) (.obj [("name", .str "x"), ("mode", .str "up")]) = false := by
